@@ -34,9 +34,10 @@ CHECKS = [
         "order, compare_candidate_reverse is 'higher version first, earlier directory among equals' and is a total preorder "
         "(reflexive, antisymmetric, transitive lemmas), find_namespace_version returns the file of the first search-path directory "
         "that has <ns>-<version>.typelib and NULL otherwise, find_namespace_latest elects a candidate no other candidate beats, "
-        "check_version_conflict refuses a different loaded version.",
+        "check_version_conflict refuses a different loaded version; enumerate_namespace_versions maps and lists only directory "
+        "entries named <namespace>-<...>.typelib, each candidate carrying the path of its entry (call-discipline clauses).",
         "Trusted: givc C front end, stub headers, GLib by assumed contract (g_mapped_file_new, g_build_filename, g_slist_sort as sorted "
-        "permutation, g_str_equal), parse_version (strtol scanning) and directory enumeration not modelled. require/register/"
+        "permutation, g_str_equal), parse_version (strtol scanning), the set and order of directory entries, the version text cut out by strrchr / g_strndup and the hash table of seen versions are not modelled (the resulting candidate list is only named). require/register/"
         "dependency loading and call histories are not yet under contract.", "DESIGN.md section 4 C17",
         technique="deductive verification: clang-AST -> VC generator (givc C front end) on the real C functions + z3"),
     chk("C14", "The real lookup functions of gitypelib.c (by name incl. the hashed path, by GType name, by error domain) are proved: "
